@@ -1154,8 +1154,8 @@ def build_unit(repo, unit, spec, prelude_texts, probe=False):
             if m:
                 c = m.group(1)
                 # the clause keyword, not the closure-specification method `f.ensures(..)`
-                if re.search(r"(?<![.\w])ensures\b(?!\s*\()", c):
-                    c2 = re.sub(r"(?<![.\w])ensures\b(?!\s*\()", "ensures false,", c, count=1)
+                if re.search(r"(?<![.\w])ensures\b", c):
+                    c2 = re.sub(r"(?<![.\w])ensures\b", "ensures false,", c, count=1)
                 else:
                     dm = re.search(r"\bdecreases\b", c)
                     c2 = (c[:dm.start()] + " ensures false,\n" + c[dm.start():]) if dm else (c.rstrip().rstrip(",") + ",\n ensures false,\n")
